@@ -73,6 +73,30 @@ where
     d.finish()
 }
 
+/// Verification hook (only with `--cfg similar_verif`): runs one middle-snake
+/// search on fresh `V` arrays and returns its result together with the final
+/// contents of the forward and backward arrays.
+#[cfg(similar_verif)]
+#[allow(clippy::type_complexity)]
+pub fn verif_find_middle_snake<Old, New>(
+    old: &Old,
+    old_range: Range<usize>,
+    new: &New,
+    new_range: Range<usize>,
+    deadline: Option<Instant>,
+) -> (Option<(usize, usize)>, Vec<usize>, Vec<usize>)
+where
+    Old: Index<usize> + ?Sized,
+    New: Index<usize> + ?Sized,
+    New::Output: PartialEq<Old::Output>,
+{
+    let max_d = max_d(old_range.len(), new_range.len());
+    let mut vb = V::new(max_d);
+    let mut vf = V::new(max_d);
+    let rv = find_middle_snake(old, old_range, new, new_range, &mut vf, &mut vb, deadline);
+    (rv, vf.v, vb.v)
+}
+
 // A D-path is a path which starts at (0,0) that has exactly D non-diagonal
 // edges. All D-paths consist of a (D - 1)-path followed by a non-diagonal edge
 // and then a possibly empty sequence of diagonal edges called a snake.
